@@ -474,8 +474,8 @@ Fixpoint eval (fuel : nat) (P : program) (env0 : env) (e : expr) {struct fuel}
       match ei with
       | ETrue => Done (VBool true, env0)
       | EFalse => Done (VBool false, env0)
-      | ENumU n => Done (VInt (Z.of_N n), env0)
-      | ENumS z => Done (VInt z, env0)
+      | ENumU n _ => Done (VInt (Z.of_N n), env0)
+      | ENumS z _ => Done (VInt z, env0)
       | EId x => match lookup_var env0 x with Some v => Done (v, env0) | None => Stuck 30 end
       | EArrLit es => do (vs, en) <- eval_list es env0; Done (VArr vs, en)
       | EArrRep e1 n =>
